@@ -2,6 +2,7 @@
 
 Finite table, enumerated completely; every row decided by the real Enforcer and
 compared with the statement's reference function."""
+import copy
 import itertools
 import os
 
@@ -16,18 +17,25 @@ RULE = ('rows = 16 scope-type declarations (none + every non-empty ordered subse
         'x do_raise x check allows/denies/depends on a role x rule overridden in the policy file or not (under its own name, or - for policies registered as renamed - under the deprecated old name) x registered as RuleDefault / DocumentedRuleDefault x rule by name / check object x '
         '4 credential representations (dict, RequestContext, to_policy_values mapping, that mapping with the `system` '
         'spelling added on top; the `system` spelling exists only for dicts and the last form); four more blocks flip '
-        'enforce_scope on a LIVING enforcer (on->off->on, off->on->off, ...) and re-run the table after each flip x role content irrelevant to the check. Non-trivial = scope types declared; distinct = distinct row. Stratum `overlap`: two requests with differently scoped tokens on one enforcer at the same time (second one runs at sampled line boundaries of the first, deterministic scheduler), each decided as its row says. Stratum `alias` (counted apart, counters reference_*): registered policies whose check string - registered default, or policy-file override (own name / deprecated old name) of a default saying the opposite - is a reference to ANOTHER registered policy declaring different scope types (none included, both directions): bare `rule:x`, under not / and / or, and through a chain of two references; referenced policy allows / denies / depends on a role, itself overridden in the file or not; by name and as a check object; the gate is that of the scope types the enforced policy itself declares, and when it lets the request through the decision is that of the check (what the check of the referenced policy decides; references inside a check are not gated). Stratum `extras` (counted apart, counter rows_with_other_context_attributes): the table again - 8 scope-type declarations x the 12 credential combinations x enforce_scope x do_raise x check allows/denies/depends on a role x overridden or not x by name / check object - with credentials that carry, besides the scope-defining system scope / domain_id / project_id (varied independently as before), the OTHER attributes of a real request context in 7 profiles (project_domain_id, user_domain_id, user_id, user/project/domain names, is_admin / is_admin_project / read_only, service_* attributes, all of them together), in 5 representations: RequestContext, its to_policy_values() mapping, dict(that mapping), that dict with the `system` spelling added, and a hand-made dict holding only the keys that have a value (e.g. project_domain_id although domain_id is absent; legacy tenant / user keys); the token scope stays the function the statement gives of system scope / domain_id / project_id only, so every representation must decide as the row of the main table does.')
+        'enforce_scope on a LIVING enforcer (on->off->on, off->on->off, ...) and re-run the table after each flip x role content irrelevant to the check. Non-trivial = scope types declared; distinct = distinct row. Stratum `overlap`: two requests with differently scoped tokens on one enforcer at the same time (second one runs at sampled line boundaries of the first, deterministic scheduler), each decided as its row says. Stratum `alias` (counted apart, counters reference_*): registered policies whose check string - registered default, or policy-file override (own name / deprecated old name) of a default saying the opposite - is a reference to ANOTHER registered policy declaring different scope types (none included, both directions): bare `rule:x`, under not / and / or, and through a chain of two references; referenced policy allows / denies / depends on a role, itself overridden in the file or not; by name and as a check object; the gate is that of the scope types the enforced policy itself declares, and when it lets the request through the decision is that of the check (what the check of the referenced policy decides; references inside a check are not gated). Stratum `extras` (counted apart, counter rows_with_other_context_attributes): the table again - 8 scope-type declarations x the 12 credential combinations x enforce_scope x do_raise x check allows/denies/depends on a role x overridden or not x by name / check object - with credentials that carry, besides the scope-defining system scope / domain_id / project_id (varied independently as before), the OTHER attributes of a real request context in 7 profiles (project_domain_id, user_domain_id, user_id, user/project/domain names, is_admin / is_admin_project / read_only, service_* attributes, all of them together), in 5 representations: RequestContext, its to_policy_values() mapping, dict(that mapping), that dict with the `system` spelling added, and a hand-made dict holding only the keys that have a value (e.g. project_domain_id although domain_id is absent; legacy tenant / user keys); the token scope stays the function the statement gives of system scope / domain_id / project_id only, so every representation must decide as the row of the main table does. Stratum `route` (counted apart, counters rows_with_enforce_scope_set_by.*): the main table again, complete, with the option enforce_scope (on and off) set not by conf.set_override but by each of the other public routes a service has - conf.set_default, oslo_policy.opts.set_defaults(conf, enforce_scope=...) alone, opts.set_defaults(conf, policy_file=<the policy file>, enforce_scope=...) in one call, a configuration file `[oslo_policy] enforce_scope = ...` given with --config-file; the statement speaks of enforcement being on or off, not of how it was switched, so every route must decide as the row says. Stratum `placeholders` (counted apart, counters placeholder_*): registered policies whose check strings AND names contain `%(key)s` substitutions and other text that is hostile to string formatting (`project_id:%(project_id)s`, `user_id:%(user_id)s or role:admin`, `\'x\':%(k)s`, dotted keys, braces `{0}` `{name}`, names with `%(x)s`, `%s`, `%d`, a lone `%`, braces), the 16 scope-type declarations x the 12 credential combinations x dict / RequestContext / policy-values mapping x enforce_scope x do_raise x overridden in the file or not x by name / as a check object (whose printed form is that text), evaluated with non-empty targets that make the check allow and deny: whatever the check string, the gate is that of the row and otherwise the decision is exactly that of the check.')
 ASSUMPTIONS = ['oslo.context RequestContext.to_policy_values is the conversion the statement means',
                'the check decision is made independent of roles by using @ / ! (registered default) and the opposite '
                'constant as file override, so that a gate reading the wrong rule is visible',
                'attributes of the credentials other than system / system_scope / domain_id / project_id (project_domain_id, '
                'user_domain_id, names, is_admin flags, service_* attributes) are neither "a system scope" nor "a domain id" '
-               'in the sense of the statement']
+               'in the sense of the statement',
+               'enforce_scope on/off in the statement means the value the configuration holds, by whichever public route a service set it '
+               '(set_override, set_default, opts.set_defaults with or without policy_file, a configuration file)',
+               'oslo_policy.opts._options (a module-level list that set_defaults mutates for every ConfigOpts of the process) is swapped '
+               'for a pristine deep copy around the blocks that call set_defaults, and put back afterwards',
+               'the decision of `a:%(k)s` checks is taken only on targets / credentials where it is beyond doubt: key present in the target and '
+               'equal to / different from the value the credentials (or the literal) carry']
 LEVEL_TEXT = ('The statement quantifies over a finite product; all of it (about 2.3e4 rows) is executed against the real '
               'enforcer - complete for the stated table.')
 LEVEL_NOTE = 'trusted: the reference function (token scope derivation + membership) transcribed from the statement'
 PLAN = {'quick': dict(shards=4, wall=120), 'thorough': dict(shards=8, wall=300)}
-MIN = {'rows_with_other_context_attributes': 30000, 'gate_denied_rows_with_other_context_attributes': 5000, 'project_token_rows_where_a_domain_named_attribute_would_flip_the_gate': 1500, 'reference_rows': 20000, 'reference_gate_denied_rows': 3000, 'reference_rows_where_referenced_scope_disagrees': 3000, 'overlapping_evaluations': 200, 'option_flips_on_living_enforcer': 2, 'evaluations': 5000, 'gate_denied_rows': 500, 'allow_decisions': 500}
+# the new strata are complete enumerations (their counts do not vary): each floor lies above what the stratum yields with one block missing
+MIN = {'rows_with_enforce_scope_set_by.set_default': 20000, 'rows_with_enforce_scope_set_by.set_defaults': 20000, 'rows_with_enforce_scope_set_by.set_defaults_with_policy_file': 20000, 'rows_with_enforce_scope_set_by.config_file': 20000, 'rows_switched_off_by_another_route_with_scope_mismatch': 11000, 'gate_denied_rows_switched_on_by_another_route': 11000, 'placeholder_rows': 100000, 'placeholder_gate_denied_rows': 10000, 'placeholder_rows_check_allows_with_scope_mismatch_enforcement_off': 5000, 'placeholder_rows_by_name_with_formatting_text_in_the_name': 42000, 'rows_with_other_context_attributes': 30000, 'gate_denied_rows_with_other_context_attributes': 5000, 'project_token_rows_where_a_domain_named_attribute_would_flip_the_gate': 1500, 'reference_rows': 20000, 'reference_gate_denied_rows': 3000, 'reference_rows_where_referenced_scope_disagrees': 3000, 'overlapping_evaluations': 200, 'option_flips_on_living_enforcer': 2, 'evaluations': 5000, 'gate_denied_rows': 500, 'allow_decisions': 500}
 ANCHORS = ['oslo_policy.policy:Enforcer._enforce_scope', 'oslo_policy.policy:Enforcer.enforce',
            'oslo_policy.policy:Enforcer._map_context_attributes_into_creds']
 REQUIRED_ANCHORS = ['oslo_policy.policy:Enforcer.enforce']
@@ -82,10 +90,75 @@ def make_creds(rep, sysmode, dom, proj, roles):
     return c if rep == 'ctx' else c.to_policy_values()
 
 
-def check_block(ctx, enforce_scope, override, flips=()):
+# -- the routes by which a service sets the option enforce_scope -------------------------------------------------------
+# `set_override` is what every other block of this module uses; the statement speaks of enforcement being on or off, not of
+# how it was switched, so the table is run again with the option set by each of the other public routes.
+ROUTES = ('set_override', 'set_default', 'set_defaults', 'set_defaults_with_policy_file', 'config_file')
+
+
+def isolate_options():
+    """opts.set_defaults() mutates a module-level option list shared by every ConfigOpts of the process: work on a deep copy,
+    to be put back by restore_options() (same idiom as pv/props/c09.py).  Returns what restore_options needs."""
+    from oslo_policy import opts
+    pristine = getattr(opts, '_options', None)
+    if pristine is not None:
+        opts._options = copy.deepcopy(pristine)
+        return (pristine, None)
+    # the list has moved: remember the defaults through the public listing and set them back afterwards
+    try:
+        return (None, {o.name: o.default for grp, lst in opts.list_opts() for o in lst if o.name in ('enforce_scope', 'policy_file')})
+    except Exception:
+        return (None, None)
+
+
+def restore_options(saved):
+    from oslo_config import cfg
+    from oslo_policy import opts
+    pristine, defaults = saved
+    if pristine is not None:
+        opts._options = pristine
+    elif defaults:
+        try:
+            opts.set_defaults(cfg.ConfigOpts(), **defaults)
+        except Exception:
+            pass
+
+
+def route_conf(tree, route, enforce_scope):
+    """A configuration for `tree` (policy file = the tree's main file, no policy directories) in which the option
+    enforce_scope got its value by `route`.  Only public entry points of oslo.config / oslo_policy.opts."""
+    from oslo_config import cfg
+    from oslo_policy import opts
+    if route == 'set_override':
+        return tree.conf(policy_dirs=[], enforce_scope=enforce_scope)
+    conf = cfg.ConfigOpts()
+    args = []
+    if route == 'config_file':
+        # a real service configuration file
+        tree.write_text('service.conf', '[DEFAULT]\ndebug = false\n\n[oslo_policy]\nenforce_scope = %s\npolicy_file = %s\n'
+                        % ('true' if enforce_scope else 'false', tree.main))
+        args = ['--config-file', tree.path('service.conf')]
+    conf(args, default_config_dirs=[], default_config_files=[])
+    if route == 'set_defaults':
+        opts.set_defaults(conf, enforce_scope=enforce_scope)
+    elif route == 'set_defaults_with_policy_file':
+        opts.set_defaults(conf, policy_file=tree.main, enforce_scope=enforce_scope)
+    else:
+        opts.set_defaults(conf)                     # registers the library's options, changes no default
+    if route == 'set_default':
+        conf.set_default('enforce_scope', enforce_scope, group='oslo_policy')
+    if route not in ('set_defaults_with_policy_file', 'config_file'):
+        conf.set_override('policy_file', tree.main, group='oslo_policy')
+    conf.set_override('policy_dirs', [], group='oslo_policy')
+    return conf
+
+
+def check_block(ctx, enforce_scope, override, flips=(), route='set_override'):
     """One enforcer, all rows on it.  `flips`: further values of enforce_scope applied afterwards TO THE SAME enforcer
-    (the option is read from configuration on every call, so a long-lived enforcer must follow it)."""
+    (the option is read from configuration on every call, so a long-lived enforcer must follow it).
+    `route`: how the option got its (first) value - see ROUTES; rows of the other routes are counted apart."""
     from oslo_policy import policy, _checks
+    other_route = route != 'set_override'
 
     class ScopedCheck(_checks.BaseCheck):
         def __init__(self, res, st):
@@ -100,9 +173,10 @@ def check_block(ctx, enforce_scope, override, flips=()):
                 return 'admin' in [r.lower() for r in creds.get('roles', [])]
             return self.res
 
+    saved = isolate_options() if other_route else None
     tree = files.Tree(dirs=())
     try:
-        conf = tree.conf(policy_dirs=[], enforce_scope=enforce_scope)
+        conf = route_conf(tree, route, enforce_scope)
         enf = policy.Enforcer(conf)
         names = {}
         filerules = {'unrelated': '@'}
@@ -151,6 +225,8 @@ def check_block(ctx, enforce_scope, override, flips=()):
                                   row = dict(scope_types=st, check_allows=res, system=sysmode, domain=dom, project=proj,
                                              rep=rep, by_object=byobj, do_raise=do_raise, enforce_scope=enforce_scope,
                                              override=override, roles=roles)
+                                  if other_route:
+                                      row['enforce_scope_set_by'] = route
                                   want = reference(st, check_value(res, roles), sysmode, dom, proj, enforce_scope, do_raise)
                                   creds = make_creds(rep, sysmode, dom, proj, roles)
                                   rule = ScopedCheck(res, st) if byobj else nm
@@ -159,12 +235,22 @@ def check_block(ctx, enforce_scope, override, flips=()):
                                       got = True if got is True else False if got is False else repr(got)
                                   except Exception as e:
                                       got = type(e).__name__
-                                  ctx.case(row, nontrivial=bool(st))
                                   gate = bool(st) and enforce_scope and token_scope(sysmode, dom, proj) not in st
-                                  if gate:
-                                      ctx.count('gate_denied_rows')
-                                  ctx.count('allow_decisions' if got is True else 'other_decisions')
-                                  ctx.observe('outcomes', str(got))
+                                  if other_route:
+                                      # counted apart: the floors of the main table are reached by the main table alone
+                                      ctx.case(['route', row], nontrivial=bool(st), stratum='route')
+                                      ctx.count('rows_with_enforce_scope_set_by.' + route)
+                                      if gate:
+                                          ctx.count('gate_denied_rows_switched_on_by_another_route')
+                                      elif st and token_scope(sysmode, dom, proj) not in st:
+                                          ctx.count('rows_switched_off_by_another_route_with_scope_mismatch')
+                                      ctx.observe('outcomes_by_route', '%s:%s' % (route, got))
+                                  else:
+                                      ctx.case(row, nontrivial=bool(st))
+                                      if gate:
+                                          ctx.count('gate_denied_rows')
+                                      ctx.count('allow_decisions' if got is True else 'other_decisions')
+                                      ctx.observe('outcomes', str(got))
                                   if got != want:
                                       if gate:
                                           key = 'scope-mismatch-not-denied'
@@ -172,11 +258,13 @@ def check_block(ctx, enforce_scope, override, flips=()):
                                           key = 'scope-gate-fires-without-mismatch'
                                       else:
                                           key = 'decision-differs-from-check'
-                                      ctx.violation(key, dict(enforce_scope=passes[0], override=override, flips=list(passes[1:])),
-                                                    {'row': row, 'expected': want, 'observed': got})
-        ctx.sample(row)
+                                      ctx.violation(key, dict(enforce_scope=passes[0], override=override, flips=list(passes[1:]), route=route),
+                                                    {'row': row, 'expected': want, 'observed': got, 'enforce_scope_set_by': route})
+        ctx.sample(row, 'route' if other_route else 'all')
     finally:
         tree.cleanup()
+        if saved is not None:
+            restore_options(saved)
 
 
 # -- policies whose check is a reference to ANOTHER registered policy with different scope types ---------------------
@@ -481,6 +569,152 @@ def check_extras_block(ctx, enforce_scope, override):
         tree.cleanup()
 
 
+# -- check strings and policy names that contain `%(key)s` substitutions and other formatting-hostile text -------------
+# "whatever the check string ... says" / "the decision is exactly that of the check": the real check strings of services are
+# mostly of the form `project_id:%(project_id)s`; their decision depends on the TARGET.  Every entry: the check string, a check
+# string that says the opposite (the registered default when the policy file overrides), and targets with the decision of the
+# check on each: True / False / `role` (allows iff the credentials hold the role admin) / `project` (allows iff the
+# credentials carry the project id p) / `brace-role` (allows iff the credentials hold the role spelled `{name}`).
+# The credentials of this pass always carry user_id u (no scope-defining attribute).
+PLACEHOLDER_CHECKS = [
+    ('project_id:%(project_id)s', 'not project_id:%(project_id)s',
+     [({'project_id': 'p'}, 'project'), ({'project_id': 'q', 'name': 'n'}, False)]),
+    ('user_id:%(user_id)s or role:admin', 'not user_id:%(user_id)s and not role:admin',
+     [({'user_id': 'u'}, True), ({'user_id': 'v', 'project_id': 'p'}, 'role')]),
+    ("'x':%(k)s", "not 'x':%(k)s", [({'k': 'x'}, True), ({'k': 'y', 'x': 'x'}, False)]),
+    ('user_id:%(target.user.id)s', 'not user_id:%(target.user.id)s',
+     [({'target.user.id': 'u'}, True), ({'target.user.id': 'w', 'user_id': 'u'}, False)]),
+    ('role:{name}', 'not role:{name}', [({'name': 'admin', '0': 'admin'}, 'brace-role')]),
+    ("'{0}':%(k)s and user_id:%(user_id)s", "not '{0}':%(k)s or not user_id:%(user_id)s",
+     [({'k': '{0}', 'user_id': 'u'}, True), ({'k': '{1}', 'user_id': 'u'}, False)]),
+    # plain checks under the names below, evaluated with a target that has something for every placeholder of the names
+    ('@', '!', [({'x': 'get', 'project_id': 'p', 'get': 'g', 'name': 'n'}, True)]),
+    ('!', '@', [({'x': 'get', 'project_id': 'p', 'get': 'g', 'name': 'n'}, False)]),
+    ('role:admin', 'not role:admin', [({'x': 'get', 'project_id': 'p', 'get': 'g', 'name': 'n'}, 'role')]),
+]
+# name styles (a serial number is appended); the first is plain, the others carry substitutions, positional conversions,
+# a lone per-cent sign, braces
+PLACEHOLDER_NAMES = ['svc:get:', 'svc:%(x)s:get:', 'svc:{get}:', 'svc:%(project_id)s:show:', 'svc:{0}:{name}:', 'svc:100%:', 'svc:%s:%d:']
+PLACEHOLDER_REPS = ('dict', 'ctx', 'pv')
+BRACE_ROLESETS = [[], ['{name}', 'member']]
+
+
+def placeholder_value(val, roles, proj):
+    if val == 'role':
+        return 'admin' in roles
+    if val == 'brace-role':
+        return '{name}' in roles
+    if val == 'project':
+        return bool(proj)
+    return val
+
+
+def make_placeholder_creds(rep, sysmode, dom, proj, roles):
+    from oslo_context import context
+    if rep == 'dict':
+        creds = make_creds('dict', sysmode, dom, proj, roles)
+        creds['user_id'] = 'u'
+        return creds
+    c = context.RequestContext(system_scope='all' if sysmode != 'none' else None, user_id='u',
+                               domain_id='d' if dom else None, project_id='p' if proj else None, roles=list(roles))
+    return c if rep == 'ctx' else c.to_policy_values()
+
+
+def check_placeholder_block(ctx, enforce_scope, override):
+    """One enforcer; registered policies whose check strings and names are full of formatting syntax; rows as in the main
+    table, with targets.  Reference: the gate as everywhere else, otherwise the decision the check has on that target."""
+    from oslo_policy import policy, _checks
+
+    class ScopedText(_checks.BaseCheck):
+        # a check object that carries scope types, decides as the parsed check string does and prints as that text
+        def __init__(self, text, st):
+            self.text = text
+            self.inner = policy.RuleDefault('by-object', text).check
+            self.scope_types = st
+
+        def __str__(self):
+            return self.text
+
+        def __call__(self, target, creds, enforcer, current_rule=None):
+            return self.inner(target, creds, enforcer, current_rule)
+
+    tree = files.Tree(dirs=())
+    try:
+        conf = tree.conf(policy_dirs=[], enforce_scope=enforce_scope)
+        enf = policy.Enforcer(conf)
+        pols = []
+        filerules = {'unrelated:%(x)s:{0}': '@'}
+        for i, st in enumerate(DECLS):
+            for j, (text, opposite, targets) in enumerate(PLACEHOLDER_CHECKS):
+                idx = i * len(PLACEHOLDER_CHECKS) + j
+                style = (i + j) % len(PLACEHOLDER_NAMES)
+                nm = PLACEHOLDER_NAMES[style] + str(idx)
+                kind = idx % 3
+                default_text = opposite if override else text
+                if kind == 1:
+                    enf.register_default(policy.DocumentedRuleDefault(nm, default_text, 'doc', [{'path': '/p/{id}', 'method': 'GET'}],
+                                                                      scope_types=st))
+                    if override:
+                        filerules[nm] = text
+                elif kind == 2 and override:
+                    dep = policy.DeprecatedRule('old:' + nm, default_text, deprecated_reason='r', deprecated_since='s')
+                    enf.register_default(policy.RuleDefault(nm, default_text, deprecated_rule=dep, scope_types=st))
+                    filerules['old:' + nm] = text
+                else:
+                    enf.register_default(policy.RuleDefault(nm, default_text, scope_types=st))
+                    if override:
+                        filerules[nm] = text
+                pols.append((nm, st, text, targets, idx, style))
+        tree.write(os.path.basename(tree.main), filerules, 'json')
+        case = dict(placeholders=True, enforce_scope=enforce_scope, override=override)
+        row = None
+        for nm, st, text, targets, idx, style in pols:
+            obj = ScopedText(text, st)
+            for ti, (target, val) in enumerate(targets):
+                rolesets = ROLESETS if val == 'role' else BRACE_ROLESETS if val == 'brace-role' else [ROLESETS[(idx + ti) % 2]]
+                for sysmode, dom, proj in itertools.product(['none', 'system', 'system_scope'], [0, 1], [0, 1]):
+                    tok = token_scope(sysmode, dom, proj)
+                    gate = bool(st) and enforce_scope and tok not in st
+                    for rep in PLACEHOLDER_REPS:
+                        if rep != 'dict' and sysmode == 'system':
+                            continue
+                        for byobj in (False, True):
+                            for do_raise in (False, True):
+                                for roles in rolesets:
+                                    row = dict(scope_types=st, name=nm, check=text, target=target, system=sysmode, domain=dom, project=proj,
+                                               rep=rep, by_object=byobj, do_raise=do_raise, enforce_scope=enforce_scope,
+                                               override=override, roles=roles)
+                                    allows = placeholder_value(val, roles, proj)
+                                    want = reference(st, allows, sysmode, dom, proj, enforce_scope, do_raise)
+                                    creds = make_placeholder_creds(rep, sysmode, dom, proj, roles)
+                                    try:
+                                        got = enf.enforce(obj if byobj else nm, dict(target), creds, do_raise=do_raise)
+                                        got = True if got is True else False if got is False else repr(got)
+                                    except Exception as e:
+                                        got = type(e).__name__
+                                    ctx.case(['placeholders', row], nontrivial=bool(st), stratum='placeholders')
+                                    ctx.count('placeholder_rows')
+                                    if style and not byobj:
+                                        ctx.count('placeholder_rows_by_name_with_formatting_text_in_the_name')
+                                    if gate:
+                                        ctx.count('placeholder_gate_denied_rows')
+                                    elif st and tok not in st and allows:
+                                        # the row where only a warning about the scope is due and the check lets the request through
+                                        ctx.count('placeholder_rows_check_allows_with_scope_mismatch_enforcement_off')
+                                    ctx.observe('placeholder_outcomes', str(got))
+                                    if got != want:
+                                        if gate:
+                                            key = 'scope-mismatch-not-denied'
+                                        elif got == 'InvalidScope':
+                                            key = 'scope-gate-fires-without-mismatch'
+                                        else:
+                                            key = 'decision-differs-from-check'
+                                        ctx.violation(key, case, {'row': row, 'policy': nm, 'expected': want, 'observed': got})
+        ctx.sample(row, 'placeholders')
+    finally:
+        tree.cleanup()
+
+
 OVERLAPS = {'quick': 12, 'thorough': 200}
 
 
@@ -574,6 +808,28 @@ def run(ctx):
             break
         check_extras_block(ctx, es, ov)
     ctx.stratum('extras', exhaustive=done)
+    base = len(blocks) + 2 * len(ALIAS_WHERE) + 4
+    # the main table with enforce_scope set by the other routes (override alternates, every route has both)
+    done = True
+    for i, (route, es) in enumerate(itertools.product(ROUTES[1:], (True, False))):
+        if not ctx.mine(base + i):
+            continue
+        if ctx.expired():
+            done = False
+            break
+        check_block(ctx, es, bool((i + i // 2) % 2), (), route)
+    ctx.stratum('route', exhaustive=done)
+    base += 2 * (len(ROUTES) - 1)
+    # check strings and names full of formatting syntax, with targets
+    done = True
+    for i, (es, ov) in enumerate(itertools.product((False, True), (False, True))):
+        if not ctx.mine(base + i):
+            continue
+        if ctx.expired():
+            done = False
+            break
+        check_placeholder_block(ctx, es, ov)
+    ctx.stratum('placeholders', exhaustive=done)
     ctx.release()
     # two overlapping requests, last (the line-level scheduler slows everything that runs after it is installed)
     from pv.mon import sched
@@ -594,4 +850,6 @@ def replay(ctx, case):
         return check_alias_block(ctx, case['enforce_scope'], case['where'], case.get('pair'))
     if case.get('extras'):
         return check_extras_block(ctx, case['enforce_scope'], case['override'])
-    check_block(ctx, case['enforce_scope'], case['override'], tuple(case.get('flips', ())))
+    if case.get('placeholders'):
+        return check_placeholder_block(ctx, case['enforce_scope'], case['override'])
+    check_block(ctx, case['enforce_scope'], case['override'], tuple(case.get('flips', ())), case.get('route', 'set_override'))
